@@ -45,15 +45,19 @@ Theorem C05_surface : forall ctx base,
   /\ (forall l v, assoc l ctx = None -> assoc "@vocab"%string ctx = Some v -> expand ctx base (IVocab l) = expand ctx base (IAbs (v ++ l)%string))
   /\ (forall i ts p m, same_members (denote_node ctx base (SNode i ts [(p, [SEmbed m])]))
                                     (denote_node ctx base (SNode i ts [(p, [SRef (node_id m)])]) ++ denote_node ctx base m))
-  /\ (forall i ts p v, same_members (denote_node ctx base (SNode i ts [(p, [v; v])])) (denote_node ctx base (SNode i ts [(p, [v])]))).
+  /\ (forall i ts p v, same_members (denote_node ctx base (SNode i ts [(p, [v; v])])) (denote_node ctx base (SNode i ts [(p, [v])])))
+  /\ (forall i ts ts2 ps1 ps2, (forall t, In t ts2 -> In t ts) ->
+        same_members (denote_node ctx base (SNode i ts (ps1 ++ ps2)))
+                     (denote_node ctx base (SNode i ts ps1) ++ denote_node ctx base (SNode i ts2 ps2))).
 Proof.
-  intros ctx base. split; [|split; [|split; [|split; [|split]]]].
+  intros ctx base. split; [|split; [|split; [|split; [|split; [|split]]]]].
   - intros ns ns' H. now apply surface_node_order.
   - intros p l ns H. now apply surface_compact.
   - intros s. apply surface_relative.
   - intros l v H1 H2. now apply surface_vocab.
   - intros i ts p m. apply surface_embedded.
   - intros i ts p v. apply surface_repeated_value.
+  - intros i ts ts2 ps1 ps2 H. now apply surface_split_description.
 Qed.
 
 Example C05_example :
